@@ -3,10 +3,11 @@
 
   Model: Gleece/Model/Types.lean.  Proved here, for every list of declarations and every set of usage
   sites (no bound on the number of types, the nesting of slices / pointers / maps, or cycles):
-   * the computed component set contains only types reachable from a route's parameters or results
-     (`components_sound`), and any closed set that contains the roots — in particular the implementation's
-     own set, on which the driver evaluates `isClosed` — contains every reachable type
-     (`closed_contains_reach`); together: exactly the reachable declarations;
+   * the computed component set is EXACTLY the set of declarations reachable from a route's parameters or
+     results (`components_exact` = `components_sound` + `components_complete`; `closure_closed` in
+     Lemmas/TypesFuel shows that `ds.length + 1` rounds always reach a closed set, by a pigeonhole on the
+     declared names); any closed set containing the roots — in particular the implementation's own key set, on
+     which the driver evaluates `isClosed` — contains every reachable type (`closed_contains_reach`);
    * the component of a type is `Decl.component` of its declaration: two projects that share the
      declaration give the same component whatever their routes, tags and other types are
      (`component_of_declaration_alone`, `usage_site_never_changes_component`);
@@ -17,7 +18,7 @@
   The correspondence (driver, mode proj / C07) compares `components` with components.schemas of both
   documents emitted by the real pipeline for generated type graphs.
 -/
-import Gleece.Lemmas.Types
+import Gleece.Lemmas.TypesFuel
 namespace Gleece.Types
 
 /-- **only reachable declarations become components, each as the image of its own declaration** -/
@@ -35,15 +36,21 @@ theorem components_sound (ds : List Decl) (usages : List TExpr) (n : TName) (c :
     obtain ⟨rfl, rfl⟩ := hx
     exact ⟨closure_reach _ _ (fun _ h => Reach.root h) _ hm, d, hl, rfl⟩
 
-/-- **every reachable declaration becomes a component** once the computed set is closed (the driver
-    evaluates `isClosed` on the model's set and on the implementation's set on every case) -/
+/-- **every reachable declaration becomes a component** (the computed set is closed: `closure_closed`) -/
 theorem components_complete (ds : List Decl) (usages : List TExpr)
-    (hc : isClosed ds (closure ds ds.length (rootsOf usages)) = true)
     (n : TName) (d : Decl) (hr : Reach ds (rootsOf usages) n) (hl : lookup ds n = some d) :
     (n, d.component) ∈ components ds usages := by
   unfold components
   rw [List.mem_filterMap]
-  exact ⟨n, closed_contains_reach (fun _ h => subset_closure _ h) hc hr, by rw [hl]; rfl⟩
+  exact ⟨n, closed_contains_reach (fun _ h => subset_closure _ h) (closure_closed ds _) hr, by rw [hl]; rfl⟩
+
+/-- **exactly the reachable declarations**, each as the image of its own declaration -/
+theorem components_exact (ds : List Decl) (usages : List TExpr) (n : TName) (c : Component) :
+    (n, c) ∈ components ds usages ↔ Reach ds (rootsOf usages) n ∧ ∃ d, lookup ds n = some d ∧ c = d.component := by
+  constructor
+  · exact components_sound ds usages n c
+  · rintro ⟨hr, d, hl, rfl⟩
+    exact components_complete ds usages n d hr hl
 
 /-- **a type's schema is a function of its declaration alone**: whatever the usage sites are, if the
     type is a component at all it is the same component -/
@@ -75,10 +82,9 @@ theorem reach_mono {ds : List Decl} {r₁ r₂ : List TName} (h : ∀ n ∈ r₁
 /-- **using a type from another route never removes or changes a component** -/
 theorem components_monotone (ds : List Decl) (u₁ u₂ : List TExpr)
     (hsub : ∀ n ∈ rootsOf u₁, n ∈ rootsOf u₂)
-    (hc : isClosed ds (closure ds ds.length (rootsOf u₂)) = true)
     (n : TName) (c : Component) (h : (n, c) ∈ components ds u₁) : (n, c) ∈ components ds u₂ := by
   obtain ⟨hr, d, hl, rfl⟩ := components_sound ds u₁ n c h
-  exact components_complete ds u₂ hc n d (reach_mono hsub hr) hl
+  exact components_complete ds u₂ n d (reach_mono hsub hr) hl
 
 /-- **properties are exactly the JSON-visible, non-embedded fields**, under their JSON names, with the
     mapped type -/
@@ -140,7 +146,7 @@ def exDecls : List Decl := [
 
 example : (components exDecls [.slice (.named ("m", "Node"))]).map (·.1) = [("m", "Node"), ("m", "Color"), ("o", "Base")] := by
   decide +kernel
-example : isClosed exDecls (closure exDecls exDecls.length (rootsOf [.slice (.named ("m", "Node"))])) = true := by
+example : isClosed exDecls (closure exDecls (exDecls.length + 1) (rootsOf [.slice (.named ("m", "Node"))])) = true := by
   decide +kernel
 example : (structObj [⟨"Kids", .slice (.ptr (.named ("m", "Node"))), some "kids", false, false⟩,
                       ⟨"Tags", .map (.named ("m", "Color")), some "tags,omitempty", true, false⟩,
